@@ -113,6 +113,7 @@ theorem frame_step {P : Prog} {v v' : SV} {evs : List Tr} {q : Nat} {K : List In
   | kill _ => exact .inr (.inl ⟨rfl, .inr (by simp)⟩)
   | forceQuit hc => exact .inl (keep [] hc (by intro q' hq'; cases hq'))
   | schedule hc => exact .inl (keep [] hc (by intro q' hq'; cases hq'))
+  | enqAct hc => exact .inl (keep [] hc (by intro q' hq'; cases hq'))
   | pushScr hc => exact .inl (keep [] hc (by intro q' hq'; cases hq'))
   | replace hc _ => exact .inl (keep [] hc (by intro q' hq'; cases hq'))
   | apprun hc => exact .inl (keep _ hc (by intro q' hq'; cases hq'))
